@@ -195,7 +195,7 @@ def build_fixup_state(F, S, core, p_side, z_side, regime, uncle, context):
     return fr, dict(z=z, p=p, g=g, u=u, gg=gg, gg_side=gg_side, root=root)
 
 
-def run(ck, F):
+def run(ck, F, prefix='C08'):
     ck.explanation = (
         'Inductive step of the red-black insertion proof, machine-checked on the instantiated code: all abstract '
         'pre-states of (loop invariant and loop condition) of fixup_insert are enumerated (parent side x node side x '
@@ -219,7 +219,7 @@ def run(ck, F):
         chosen = cores
     ck.extra['core_instantiations'] = len(cores)
     ck.extra['analysed_instantiations'] = [contracts.short(c) for c in chosen]
-    R_fix = ck.rule('C08.fixup-step', 'one iteration of the re-balancing loop, from every abstract state satisfying the loop '
+    R_fix = ck.rule(f'{prefix}.fixup-step', 'one iteration of the re-balancing loop, from every abstract state satisfying the loop '
                     'invariant, preserves search order, parent links and black height, and either terminates with a valid '
                     'red-black fragment (root black) or re-establishes the invariant two levels up', floor=150)
     for core in chosen:
@@ -246,7 +246,7 @@ def run(ck, F):
                             ck.check(R_fix, inst, not verdict, f'{fid} from state [{inst}]: ' + '; '.join(verdict), loc=f['loc'], fn=fid)
         ck.extra.setdefault('fixup_states', 0)
         ck.extra['fixup_states'] += nstates
-    descent_rules(ck, F, S, intrusive, owning)
+    descent_rules(ck, F, S, intrusive, owning, prefix)
 
 
 def one_iteration(F, S, core, f, loop, after, p_side, z_side, regime, uncle, context):
@@ -360,11 +360,11 @@ def small_tree(F, S, core, n_nodes):
     return fr, nodes
 
 
-def descent_rules(ck, F, S, intrusive, owning):
-    R1 = ck.rule('C08.descent', 'find and insert descend the same way for the same comparison result (negative: left, positive: '
+def descent_rules(ck, F, S, intrusive, owning, prefix='C08'):
+    R1 = ck.rule(f'{prefix}.descent', 'find and insert descend the same way for the same comparison result (negative: left, positive: '
                  'right, zero: found); insert links the new node exactly into the empty slot where the descent ended, sets its '
                  'parent, colours it red (black at the root) and re-balances from it', floor=6)
-    R2 = ck.rule('C08.count-and-reuse', 'the owning flavour returns the existing element and allocates nothing when the key is found; '
+    R2 = ck.rule(f'{prefix}.count-and-reuse', 'the owning flavour returns the existing element and allocates nothing when the key is found; '
                  'the element count grows by exactly one per inserted node', floor=6)
     S.concrete_loops = True
     picks = []
